@@ -77,10 +77,15 @@ class FakeServer(BaseComponent):
         self.errors.append(f'{etype.__name__}: {evalue}')
 
 
+# body kinds with response.stream = True although the body is complete (str / bytes / list):
+# 'slistb' sets response.body itself and returns the response, the others return the value
+SIZED_STREAM_FLAG = {'sstr': 'str', 'sbytes': 'bytes', 'slist': 'list', 'slistb': 'list'}
+
+
 def make_body(spec, counters=None):
     """build the object the application hands to the framework for body `spec`
        spec = {'kind': ..., 'parts': [bytes|str, ...]}"""
-    kind = spec['kind']
+    kind = SIZED_STREAM_FLAG.get(spec['kind'], spec['kind'])
     parts = spec['parts']
     if kind == 'str':
         return ''.join(p if isinstance(p, str) else p.decode('latin1') for p in parts)
@@ -130,6 +135,13 @@ class App(BaseComponent):
         if kind == 'sgen':                  # streamed generator (what wsgi.Gateway does)
             res.body = make_body(body)
             res.stream = True
+            return res
+        if kind in ('sstr', 'sbytes', 'slist'):   # stream flag set, a complete (sized) value returned
+            res.stream = True
+            return make_body(body)
+        if kind == 'slistb':                # stream flag set, list assigned to response.body
+            res.stream = True
+            res.body = make_body(body)
             return res
         if kind == 'httperror':             # application signals an error page
             from circuits.web.errors import httperror
@@ -198,6 +210,7 @@ def e2e_pieces(kind, size, piece):
     """the parts a body of `kind` and `size` bytes is handed to the framework in
        (str for kind 'str' and for every second part of the multi-part kinds)"""
     data = e2e_pattern(size)
+    kind = SIZED_STREAM_FLAG.get(kind, kind)
     if kind == 'bytes' or kind == 'file':
         return [data]
     if kind == 'str':
@@ -253,6 +266,26 @@ def _e2e_controller():
 
         def kfile(self, size, piece, status, tag):         # file object (streamed in BUFSIZE pieces)
             return io.BytesIO(self._begin('file', size, piece, status, tag)[0])
+
+        # response.stream = True with a body that is complete already (nothing to stream)
+        def ksstr(self, size, piece, status, tag):
+            self.response.stream = True
+            parts = self._begin('sstr', size, piece, status, tag)
+            self.response.headers['Content-Type'] = 'text/plain; charset=utf-8'
+            return parts[0]
+
+        def ksbytes(self, size, piece, status, tag):
+            self.response.stream = True
+            return self._begin('sbytes', size, piece, status, tag)[0]
+
+        def kslist(self, size, piece, status, tag):
+            self.response.stream = True
+            return self._begin('slist', size, piece, status, tag)
+
+        def kslistb(self, size, piece, status, tag):       # the list is assigned to response.body
+            self.response.stream = True
+            self.response.body = self._begin('slistb', size, piece, status, tag)
+            return self.response
 
         def kanswer(self, how, status, tag):
             """answers that are error / redirect events made by the handler (they carry the request's tag in
